@@ -2,9 +2,16 @@
 package c06
 
 import (
+	"context"
 	"fmt"
+	"os"
 	"strings"
+	"sync"
+	"sync/atomic"
 	"testing"
+	"time"
+
+	"github.com/whoisnian/glb/tasklane"
 
 	"pgregory.net/rapid"
 
@@ -78,4 +85,98 @@ func TestScenarios(t *testing.T) {
 			}
 		}
 	}
+}
+
+// ---- real clock, real scheduler ----
+//
+// The bubble owns a virtual clock with the current (Go >= 1.23) timer-channel semantics. A program whose go.mod
+// says go < 1.23 - like the library's own - runs PushTask's timeout with the old, buffered timer channels
+// (GODEBUG=asynctimerchan=1), which testing/synctest does not support. This stress test therefore runs outside a
+// bubble; the driver runs it once with GODEBUG=asynctimerchan=1 and once with the default.
+
+type rtTask struct {
+	count atomic.Int32
+	dur   time.Duration
+	err   error
+	done  bool
+}
+
+func (t *rtTask) Start() {
+	t.count.Add(1)
+	if t.dur > 0 {
+		time.Sleep(t.dur)
+	}
+}
+
+func TestRealTimeStress(t *testing.T) {
+	rt.Check(t, 8, 400, func(t *rapid.T) {
+		lanes := rapid.IntRange(1, 3).Draw(t, "laneSize")
+		queue := rapid.IntRange(0, 2).Draw(t, "queueSize")
+		timeout := rapid.SampledFrom([]time.Duration{100 * time.Microsecond, 400 * time.Microsecond, time.Millisecond}).Draw(t, "timeout")
+		producers := rapid.IntRange(2, 6).Draw(t, "producers")
+		taskDur := rapid.SampledFrom([]time.Duration{0, 50 * time.Microsecond, 300 * time.Microsecond, time.Millisecond}).Draw(t, "taskDuration")
+		ctx, cancel := context.WithCancel(context.Background())
+		tl := tasklane.New(ctx, lanes, queue)
+		tl.SetTimeout(timeout)
+		var mu sync.Mutex
+		var all []*rtTask
+		var wg sync.WaitGroup
+		stop := time.Now().Add(120 * time.Millisecond)
+		for p := 0; p < producers; p++ {
+			wg.Add(1)
+			go func(p int) {
+				defer wg.Done()
+				var mine []*rtTask
+				for i := 0; time.Now().Before(stop) && i < 4000; i++ {
+					tk := &rtTask{dur: taskDur}
+					tk.err = tl.PushTask(tk, (p+i)%lanes)
+					mine = append(mine, tk)
+				}
+				mu.Lock()
+				all = append(all, mine...)
+				mu.Unlock()
+			}(p)
+		}
+		wg.Wait()
+		// with a live context every accepted task is eventually started: give the lane generous real time
+		deadline := time.Now().Add(8 * time.Second)
+		pending := func() int {
+			n := 0
+			for _, tk := range all {
+				if tk.err == nil && tk.count.Load() == 0 {
+					n++
+				}
+			}
+			return n
+		}
+		for pending() > 0 && time.Now().Before(deadline) {
+			time.Sleep(2 * time.Millisecond)
+		}
+		time.Sleep(5 * time.Millisecond)
+		accepted, timeouts := 0, 0
+		for i, tk := range all {
+			c := tk.count.Load()
+			switch {
+			case c > 1:
+				t.Fatalf("real clock: task #%d was started %d times (lanes=%d queue=%d timeout=%s producers=%d)", i, c, lanes, queue, timeout, producers)
+			case tk.err != nil && c > 0:
+				t.Fatalf("real clock: task #%d was started although PushTask returned %v (lanes=%d queue=%d timeout=%s producers=%d taskDuration=%s)", i, tk.err, lanes, queue, timeout, producers, taskDur)
+			case tk.err == nil && c == 0:
+				t.Fatalf("real clock: accepted task #%d has not been started 8s after the last push, with a live context (lanes=%d queue=%d timeout=%s producers=%d)", i, lanes, queue, timeout, producers)
+			}
+			if tk.err == nil {
+				accepted++
+			} else {
+				timeouts++
+			}
+		}
+		cancel()
+		tl.Wait()
+		ev.Label("realtime:GODEBUG=" + os.Getenv("GODEBUG"))
+		ev.LabelN("realtime_pushes", int64(len(all)))
+		ev.LabelN("realtime_push_timeouts", int64(timeouts))
+		ev.Case(timeouts > 0 && accepted > 0, ev.Hash("rt", os.Getenv("GODEBUG"), fmt.Sprint(lanes, queue, timeout, producers, taskDur, len(all), timeouts)), func() string {
+			return fmt.Sprintf("real-clock stress GODEBUG=%q lanes=%d queue=%d timeout=%s producers=%d taskDuration=%s: %d pushes, %d accepted, %d timed out", os.Getenv("GODEBUG"), lanes, queue, timeout, producers, taskDur, len(all), accepted, timeouts)
+		})
+	})
 }
